@@ -211,7 +211,16 @@ async def run_case(S, case: dict, variant: dict) -> dict:  # noqa: ANN001
         if variant.get("via_config"):
             from gallia.commands.script.vecu import RngVirtualECU, RngVirtualECUConfig
 
-            cfg = RngVirtualECUConfig(target="unix-lines:///nonexistent/c16.sock", seed=case["seed"], **p,
+            # the way the command line / gallia.toml deliver the same arguments: lists of strings
+            # (service names, session numbers in hex notation)
+            pc = dict(p)
+            for k in ("mandatory_services", "optional_services"):
+                if k in pc:
+                    pc[k] = [UDSIsoServices(x).name for x in pc[k]]
+            for k in ("mandatory_sessions", "optional_sessions"):
+                if k in pc:
+                    pc[k] = [hex(int(x)) for x in pc[k]]
+            cfg = RngVirtualECUConfig(target="unix-lines:///nonexistent/c16.sock", seed=case["seed"], **pc,
                                       **case["behavior"])
             server = RngVirtualECU(cfg)._server()
         else:
